@@ -139,7 +139,7 @@ class C08(Prop):
         "digitize_textize_digitize", "textize_canonical_spelling", "revcomp_spec", "revcomp_involutive",
         "avg_score_is_mean", "avg_score_nonresidue", "expect_score_is_weighted_mean", "count_splits_equally", "degen_set_examples",
         "custom_create_wf", "custom_alphabets_wf", "custom_digitize_textize_digitize",
-        "dsqcat_spec", "dsqcat_appends_digitization", "std_inmap_clean", "sq_text_complement_table", "sq_text_revcomp_agrees",
+        "dsqcat_spec", "dsqcat_appends_digitization", "std_inmap_clean", "sq_text_complement_table", "sq_text_revcomp_agrees", "cdealign_spec", "xdealign_spec",
     )]
     claimed = True
     technique = ("Lean 4 proof: table theorems closed by `decide` over the whole regenerated tables (vs a hand-written IUPAC statement), "
@@ -243,6 +243,7 @@ class C08(Prop):
     def seq_ops(self, rng, pools, K, Kp, hb, big, has_comp, nlen):
         """history of conversions on the current alphabet"""
         ops = []
+        known_len = None
         cur_len = None  # length of current dsq if known to python (unknown: None)
         for _ in range(nlen):
             r = rng.random()
@@ -251,9 +252,17 @@ class C08(Prop):
                 s = self.rand_string(rng, pools, n, hb)
                 ops.append(("digitize" if rng.random() < 0.8 else "createdsq") + " hex=%s" % hx(s))
                 cur_len = -1
+                ign = set(pools.get("ignored", b""))
+                known_len = len([c for c in s.split(b"\0")[0] if c not in ign])
                 ops.append("dsqlen")
                 if rng.random() < 0.6:
                     ops += ["textize", "redigitize"]
+                if rng.random() < 0.35:
+                    # dealign an annotation string / a second digital sequence against the current one (gaps, ~ removed)
+                    if rng.random() < 0.5:
+                        ops.append("cdealign s=%s" % hx(bytes(rng.randrange(33, 127) for _ in range(known_len))))
+                    else:
+                        ops.append("xdealign x=%s" % hx(bytes([255] + [rng.randrange(0, Kp) for _ in range(known_len)] + [255])))
             elif r < 0.40:
                 ops.append("textize")
             elif r < 0.50:
@@ -276,7 +285,13 @@ class C08(Prop):
                 if rng.random() < 0.15: nk = "unknown"
                 elif rng.random() < 0.05 and n > 0:
                     b = bytearray(s); b[rng.randrange(n)] = 0; s = bytes(b)
-                ops.append("dsqcat hex=%s L=%s n=%s" % (hx(s), rng.choice(["known", "known", "unknown"]), nk))
+                if rng.random() < 0.06:
+                    m = [rng.choice([254, 254, 253, rng.randrange(0, Kp), rng.randrange(0, Kp)]) for _ in range(128)]   # valid codes only
+                    m[0] = Kp - 3
+                    if rng.random() < 0.5: m[rng.choice(s) % 128 if s else 65] = rng.choice([255, 252, 251, 250, 200, 128])
+                    ops.append("dsqcat hex=%s L=known n=known map=%s" % (hx(s), hx(m)))
+                else:
+                    ops.append("dsqcat hex=%s L=%s n=%s" % (hx(s), rng.choice(["known", "known", "unknown"]), nk))
             else:
                 ops.append("dsqlen")
         return ops
@@ -313,7 +328,11 @@ class C08(Prop):
             elif r < 0.75:
                 p = [v + 1e-3 for v in prob(K)]
                 ops.append("iexpect x=%d sc=%s p=%s" % (rng.choice(safe_x), ",".join(str(rng.randrange(-1000, 1000)) for _ in range(K)), ",".join(fbits(v) for v in p)))
-            elif r < 0.9:
+            elif r < 0.82:
+                y = rng.choice(safe_x) if rng.random() < 0.9 else rng.randrange(0, Kp)
+                if rng.random() < 0.5: ops.append("match x=%d y=%d" % (x, y))
+                else: ops.append("match x=%d y=%d p=%s" % (x, y, ",".join(dbits(v) for v in prob(K))))
+            elif r < 0.92:
                 ops.append("dcount x=%d wt=%s sc=%s" % (x, dbits(rng.choice([1.0, -1.0, 0.5, dval()])), ",".join(dbits(dval()) for _ in range(K + 1))))
             else:
                 ops.append("fcount x=%d wt=%s sc=%s" % (x, fbits(rng.choice([1.0, -1.0, 0.5, dval()])), ",".join(fbits(dval()) for _ in range(K + 1))))
@@ -530,6 +549,17 @@ class C08(Prop):
                 tol = (1e-9 if name == "davg" else 1e-4) * (max(abs(v) for v in members) + 1e-300)
                 if math.isnan(got) or (not math.isinf(want) and abs(got - want) > tol):
                     return Failure("monitor", "%s x=%d: %r is not the mean %r over the degeneracy set" % (name, x, got, want))
+            elif name == "match":
+                x, y = int(d["x"]), int(d["y"])
+                got = undbits(l.split()[1])
+                if x < a.K and y < a.K:
+                    if got != (1.0 if x == y else 0.0): return Failure("monitor", "match of canonical %d,%d is %r" % (x, y, got))
+                elif a.is_residue(x) and a.is_residue(y) and "p" not in d:
+                    sx = {i for i in range(a.K) if a.degen[x][i]}; sy = {i for i in range(a.K) if a.degen[y][i]}
+                    if sx and sy:
+                        want = len(sx & sy) / (len(sx) * len(sy))
+                        if math.isnan(got) or abs(got - want) > 1e-9:
+                            return Failure("monitor", "match x=%d y=%d: %r, average over the two degeneracy sets is %r" % (x, y, got, want))
             elif name in ("dcount", "fcount"):
                 x = int(d["x"]); un = undbits if name == "dcount" else unfbits
                 before = [un(v) for v in d["sc"].split(",")]
